@@ -118,6 +118,9 @@ def run_polyak(mutate=None):
         check("C13.polyak.iterate", sym.eq(A_next.at(e, cc), A_prev.at(e, cc) + v_new))
         wr = [w for w in c.ghost.get("writes", []) if w[0] is A_prev or (not first and w[0] is vals[0])]
         check("C11.no_aliasing.polyak_does_not_mutate_previous_iterates", z3.BoolVal(not wr))
+        # the iterate that is kept in the history and returned must own its data: the solver's kernel buffer is overwritten by the next call
+        sym.check_terms("C13.polyak.kept_iterate_does_not_alias_the_kernel_scratch_buffer", A_next is not s.new_A_induced and vals[-1] is not s.new_A_induced
+                        and vel[-1] is not s.new_A_induced)
         check_same("C13.polyak.history_appended_and_trimmed", [(vals[-1], A_next)], also=(len(vals) <= 2 and len(vel) <= 2 and len(vals) == 2))
         # relative error = max over edges of |K - A_prev| / max(|A_next|, 1e-20)
         num2 = (K.at(e, SI(0)) - A_prev.at(e, SI(0))) ** 2 + (K.at(e, SI(1)) - A_prev.at(e, SI(1))) ** 2
@@ -191,6 +194,12 @@ def native(seed=0):
         A_vals, vel = [A0.copy(), A0], [v0.copy(), v0]
         A_next, err = sv.get_induced_vector_potential(Jc, A_vals, vel)
         n += 1
+        kept = A_next.copy()
+        A_next2, _ = sv.get_induced_vector_potential(0.5 * Jc, A_vals, vel)
+        if not np.array_equal(A_next, kept):
+            bad.append(dict(what="the iterate returned by one Polyak iteration is overwritten by the next call (it aliases the kernel buffer)", alpha=alpha, beta=beta,
+                            max_abs_change=float(np.abs(A_next - kept).max())))
+            continue
         want_v = (1 - beta) * v0 + alpha * (K - A_prev)
         want_A = A_prev + want_v
         want_err = float(np.max(np.linalg.norm(K - A_prev, axis=1) / np.maximum(np.linalg.norm(want_A, axis=1), 1e-20)))
@@ -199,6 +208,13 @@ def native(seed=0):
         elif not abs(err - want_err) <= 1e-9 * max(1.0, want_err):
             bad.append(dict(what="reported screening error is not the relative mismatch between the previous iterate and the kernel sum", screening_step_size=alpha,
                             screening_step_drag=beta, reported=float(err), mismatch=want_err, ratio=float(err / want_err)))
+    # nothing to screen (no field, no current): the loop must converge at once, not fail
+    with tempfile.TemporaryDirectory() as td:
+        n += 1
+        try:
+            tdgl.solve(dev, tdgl.SolverOptions(solve_time=0.1, output_file=os.path.join(td, "z.h5"), include_screening=True, save_every=20))
+        except Exception as e:  # noqa
+            bad.append(dict(what="screening run with zero field and zero current fails", error=f"{type(e).__name__}: {str(e)[:140]}"))
     for budget, tol, expect_raise in ((3, 1e-6, True), (1000, 1e-2, False)):
         with tempfile.TemporaryDirectory() as td:
             opts = tdgl.SolverOptions(solve_time=0.5, output_file=os.path.join(td, "o.h5"), include_screening=True, max_iterations_per_step=budget,
